@@ -55,6 +55,12 @@ def judge_prog(req, impl, model, spec, focus=None):
         if focus == "names" and single and m.group(2) not in impl:
             oracle = False
             what = "rejected, but no diagnostic names the injected wire %s: %s" % (m.group(2), impl[:200])
+    mn = re.search(r"\(msgnames 0 ([^ )]*) ([^)]*)\)", req)
+    if mn:
+        oracle = False
+        what = "the rendered diagnostics (%s) do not name the wire %s in quotes" % (mn.group(1), mn.group(2))
+    elif "(msgnames 1)" in req:
+        cats.append("messages-name-their-wires")
     if "loops-BOGUS" in verdict:
         oracle = False
         what = ("a dependency loop was reported whose names, or whose printed \"'x' depends on 'y'\" links, are not a cycle of "
